@@ -294,7 +294,8 @@ def r18_5(run):
     def match_forms(u):
         forms = []
         for n in walk_unit(u):
-            if isinstance(n, ast.Compare) and len(n.ops) == 1 and ('SocksPort' in src(n) or any(isinstance(x, ast.Name) and x.id in ('port_config', 'port') for x in ast.walk(n))):
+            if isinstance(n, ast.Compare) and len(n.ops) == 1 and ('SocksPort' in src(n) or '.split()[0]' in src(n) or
+                                                                   any(isinstance(x, ast.Name) and x.id in ('port_config', 'port') for x in ast.walk(n))):
                 l, r = src(n.left), src(n.comparators[0])
                 if isinstance(n.ops[0], ast.Eq) and '.split()[0]' in l + r:
                     forms.append(('token-eq', n))
@@ -309,6 +310,27 @@ def r18_5(run):
     run.ob('R18.5', cs, bad[0] if bad else cs.node, 'create_socks_endpoint matches a requested port the same way (token equality)', ok, slot='match:create_socks_endpoint',
            message='create_socks_endpoint decides "already configured" with %s: "905" is found inside "9050 ..." and no port is added' %
                    [src(n) for k, n in f2])
+    # the third place that answers "does Tor already have this port?": web.agent_for_socks_port
+    ag = run.idx.unit('web.agent_for_socks_port')
+    f3 = match_forms(ag)
+    raw = [n for n in walk_unit(ag) if isinstance(n, ast.Compare) and len(n.ops) == 1 and isinstance(n.ops[0], (ast.In, ast.NotIn)) and (dotted(n.comparators[0]) or '').endswith('.SocksPort')]
+    run.ob('R18.5', ag, raw[0] if raw else ag.node, 'agent_for_socks_port matches a requested port by its token too', any(k == 'token-eq' for k, _ in f3) and not raw,
+           slot='match:agent_for_socks_port',
+           message='agent_for_socks_port decides "already configured" with %s: a port whose line carries options (or an int request against Tor\'s strings) is not '
+                   'found and a duplicate SOCKSPort line is sent' % ([src(n) for n in raw] or [src(n) for _, n in f3]))
+    sp = ag.params[2]
+    firsts = [n for n in walk_unit(ag) if isinstance(n, ast.Assign) and sp in assigned_targets(n)]
+    okn = bool(firsts) and isinstance(firsts[0].value, ast.Call) and dotted(firsts[0].value.func) == 'str' and dotted(firsts[0].value.args[0]) == sp
+    uses_before = [n for n in walk_unit(ag) if isinstance(n, ast.Name) and n.id == sp and isinstance(n.ctx, ast.Load) and firsts and n.lineno < firsts[0].lineno]
+    run.ob('R18.5', ag, firsts[0] if firsts else ag.node, 'the requested port is turned into text before it is compared with Tor\'s lines', okn and not uses_before, slot='request-normalised',
+           message='agent_for_socks_port compares the request as given (e.g. the int 9150) with Tor\'s list of strings')
+    # create_socks_endpoint changes the list of ports only by appending the new line (in place, which marks it pending):
+    # assigning a copy taken earlier puts a stale snapshot into the pending set while the live list keeps the new line
+    for n in walk_unit(cs):
+        if isinstance(n, ast.Assign) and 'self.SocksPort' in assigned_targets(n):
+            run.ob('R18.5', cs, n, 'the port list is only appended to, never replaced by a snapshot', False, slot='portlist-rebound',
+                   message='create_socks_endpoint assigns self.SocksPort = %s: on a live config the assignment becomes a pending value that a later request re-sends '
+                           'instead of the current lines' % src(n.value)[:40])
     # adds then saves once
     g = cfg_of(cs)
     app = g.nodes_where(lambda n: any(is_call_to(a, 'self.SocksPort.append') for a in node_asts(n)))
@@ -400,6 +422,8 @@ RULES = [
 from ..selftest import M  # noqa: E402
 F, FC = 'txtorcon/endpoints.py', 'txtorcon/torconfig.py'
 MUTANTS = [
+    M('rollback-by-snapshot', FC, ["                self.SocksPort.append(socks_config)\n", "                except TorProtocolError as e:\n"], ["                previous = list(self.SocksPort)\n                self.SocksPort.append(socks_config)\n", "                except TorProtocolError as e:\n                    self.SocksPort = previous\n"], ['R18.5']),
+    M('agent-whole-line-membership', 'txtorcon/web.py', "    wanted = socks_config.split()[0]\n    if not any(port.split()[0] == wanted for port in torconfig.SocksPort):", "    if socks_config not in torconfig.SocksPort:", ['R18.5']),
     M('candidates-not-stripped', F, "    socks_ports = [port.split()[0] for port in socks_ports]\n", "", ['R18.3']),
     M('mismatch-breaks', F, "        if socks_config and p != socks_config:\n            continue", "        if socks_config and p != socks_config:\n            break", ['R18.3']),
     M('default-endpoint-first-line', 'txtorcon/controller.py', "        if self._socks_endpoint is None:\n            self._socks_endpoint = yield _create_socks_endpoint(self._reactor, self._protocol)", "        if self._socks_endpoint is None and self._config is not None:\n            self._socks_endpoint = self._config.socks_endpoint(self._reactor)\n        if self._socks_endpoint is None:\n            self._socks_endpoint = yield _create_socks_endpoint(self._reactor, self._protocol)", ['R18.7']),
